@@ -17,6 +17,7 @@ package c16
 import (
 	"fmt"
 	"os"
+	"regexp"
 	"runtime"
 	"runtime/debug"
 	"sort"
@@ -49,7 +50,7 @@ func (r Round) has(path string) bool {
 func (r Round) sig() string {
 	ps := append([]string(nil), r.Paths...)
 	sort.Strings(ps)
-	return fmt.Sprintf("%s|n=%d|%s|v=%d", r.Comp, r.Closers, strings.Join(ps, "+"), r.P["variant"])
+	return fmt.Sprintf("%s|n=%d|%s|v=%d|m=%d", r.Comp, r.Closers, strings.Join(ps, "+"), r.P["variant"], r.P["udp"]+2*r.P["pathFirst"])
 }
 
 type fail struct {
@@ -68,6 +69,7 @@ type outcome struct {
 	extraClass []string
 	extra      map[string]int64
 	skipped    bool
+	abort      bool // the process is poisoned (goroutines blocked for good): the child must be replaced
 }
 
 func (o *outcome) failf(key, format string, a ...any) {
@@ -574,4 +576,97 @@ func pollUntilBlocked(soft, hard time.Duration, cond func() bool) bool {
 		}
 	}
 	return cond()
+}
+
+// roundAborted is set when a "does not return" verdict was given: tear-down code that calls
+// into the (deadlocked) component must be skipped, the child process is replaced.
+var roundAborted bool
+
+// blockedTops names, for every goroutine started after the baseline that is inside the code
+// under test and on a shutdown path, the innermost tunnox-core/internal function, plus the
+// callers of dispose primitives that block without being closers (sorted, unique, joined by
+// "+"): the root-cause part of a "does not return" key. Bystanders queued behind the same
+// lock only appear in the detail.
+func blockedTops(base gsnap) string {
+	set, all := map[string]bool{}, map[string]bool{}
+	for _, g := range strings.Split(allStacks(), "\n\n") {
+		lines := strings.Split(g, "\n")
+		if base[goid(lines[0])] {
+			continue
+		}
+		var frames []string
+		for _, ln := range lines[1:] {
+			if strings.HasPrefix(ln, "tunnox-core/internal/") {
+				if i := strings.LastIndex(ln, "("); i > 0 {
+					ln = ln[:i]
+				}
+				frames = append(frames, shortFunc(ln))
+			}
+		}
+		if len(frames) == 0 {
+			continue
+		}
+		all[frames[0]] = true
+		onClosePath := false
+		for _, f := range frames {
+			if closePathFunc.MatchString(f) {
+				onClosePath = true
+				break
+			}
+		}
+		switch {
+		case onClosePath:
+			// a goroutine on a shutdown path: where it is blocked
+			set[frames[0]] = true
+		case strings.HasPrefix(frames[0], "core/dispose."):
+			// blocked inside the dispose primitives without being a closer: name who called them
+			for _, f := range frames {
+				if !strings.HasPrefix(f, "core/dispose.") {
+					set[f] = true
+					break
+				}
+			}
+		}
+		// other goroutines are bystanders queued behind the same lock: detail only
+	}
+	if len(set) == 0 {
+		set = all
+	}
+	var ks []string
+	for k := range set {
+		ks = append(ks, k)
+	}
+	sort.Strings(ks)
+	if len(ks) > 4 {
+		ks = ks[:4]
+	}
+	if len(ks) == 0 {
+		return "no-repo-frame"
+	}
+	return strings.Join(ks, "+")
+}
+
+var closePathFunc = regexp.MustCompile(`\.(Close|CloseWithResult|CloseWithError|CloseConnection|CloseAll|CloseTunnel|onClose|cleanup|runCleanHandlers|StopCleanup|Stop|Dispose|DisposeAll|DisposeWithTimeout)(\.func\d+)*$`)
+
+// mustReturn is the bounded "Close returns" verdict: all harness goroutines of the race must
+// come back. After 3 s it fails as soon as every goroutine inside the code under test is
+// blocked in two samples (deadlock), at the latest after 20 s. The round is then aborted: the
+// blocked goroutines can never be collected, so the child process is replaced.
+func (r *race) mustReturn(o *outcome, base gsnap, what string) bool {
+	ok, dump := r.waitBlocked(3*time.Second, 20*time.Second)
+	if ok {
+		return true
+	}
+	o.fails = append(o.fails, r.failsSnapshot()...)
+	o.failf(fmt.Sprintf("C16/%s/close-does-not-return/%s", r.comp, blockedTops(base)),
+		"%s did not return: 3s after the release every goroutine inside the code under test is blocked (two samples) or still not done after 20s. Stacks:\n%s", what, dump)
+	o.abort = true
+	roundAborted = true
+	return false
+}
+
+func (r *race) failsSnapshot() []fail {
+	r.mu.Lock()
+	defer r.mu.Unlock()
+	return append([]fail(nil), r.fails...)
 }
